@@ -131,6 +131,11 @@ theorem prevOK_step (cfg : Cfg) (hp : cfg.prevFix = true) (pm : Perm) (a : A) (a
     refine ⟨fun v hv => ?_⟩
     simp only [Act.apply, Core.stopFinish, Core.writeImage, Core.clearPrev, hp] at hv
     split at hv <;> simp at hv
+  case restartMidC fx => exact ⟨fun v hv => by simp [Act.apply, Core.restartMid, Core.clearPrev, hp] at hv⟩
+  case stopFinishC fx d =>
+    refine ⟨fun v hv => ?_⟩
+    simp only [Act.apply, Core.stopFinish, Core.writeImage, Core.clearPrev, hp] at hv
+    split at hv <;> simp at hv
   case write => refine ⟨?_⟩; simp only [Act.apply, Core.writeImage]; split <;> exact h
   case ev e =>
     cases e <;> refine ⟨?_⟩ <;> simp only [Act.apply, Core.event] <;> first | exact h | (split <;> exact h)
@@ -231,6 +236,11 @@ theorem noSnap_step (cfg : Cfg) (hp : cfg.prevFix = true) (pm : Perm) (a : A) (a
     refine ⟨fun _ => ?_⟩
     simp only [Act.apply, Core.stopFinish, Core.writeImage, Core.clearPrev, hp]
     split <;> rfl
+  case restartMidC fx => exact ⟨fun _ => by simp [Act.apply, Core.restartMid, Core.clearPrev, hp]⟩
+  case stopFinishC fx d =>
+    refine ⟨fun _ => ?_⟩
+    simp only [Act.apply, Core.stopFinish, Core.writeImage, Core.clearPrev, hp]
+    split <;> rfl
   case error =>
     refine ⟨fun hq => ?_⟩
     simp only [Act.apply, Core.setError] at hq ⊢
@@ -298,6 +308,11 @@ theorem prevOnset_step (cfg : Cfg) (hp : cfg.prevFix = true) (ho : cfg.pauseOnce
   case restartMid => exact fun v hv => by simp [Act.apply, Core.restartMid, Core.clearPrev, hp] at hv
   case restartFinish => exact fun v hv => by simp [Act.apply, Core.restartFinish, Core.clearPrev, hp] at hv
   case stopFinish =>
+    intro v hv
+    simp only [Act.apply, Core.stopFinish, Core.writeImage, Core.clearPrev, hp] at hv
+    split at hv <;> simp at hv
+  case restartMidC fx => exact fun v hv => by simp [Act.apply, Core.restartMid, Core.clearPrev, hp] at hv
+  case stopFinishC fx d =>
     intro v hv
     simp only [Act.apply, Core.stopFinish, Core.writeImage, Core.clearPrev, hp] at hv
     split at hv <;> simp at hv
